@@ -2,7 +2,7 @@ PROP = {
     'level': 'proof',
     'coq': ['Properties/C19.v'],
     'coq_gen': ['Properties/C19_gen.v'],
-    'rule': ("nine case kinds from one PRNG. Server configuration is part of the quantifier: secrets of 0/1/31/32/63/64/65/100/1000 "
+    'rule': ("ten case kinds from one PRNG. Server configuration is part of the quantifier: secrets of 0/1/31/32/63/64/65/100/1000 "
              "bytes (and short random ones) in every kind, lifetimes incl. negative/overflowing, caller-written domain policies.  c19.check: real Server.CheckProof with s.CheckPayload/StaticDomain and a scripted "
              "fake abi.Executor vs the extracted model (Gallina SHA-256; oracle columns computed with crypto/hmac, encoding/base64, "
              "tongo boc/tlb, crypto/ed25519): honest proofs by the real CreateSignedProof for all 11 constructible wallet versions "
@@ -29,7 +29,13 @@ PROP = {
              "harness with crypto/hmac (independent of the Server object), accepted by a second Server with the same secret, and "
              "accepted by a Server with another secret (sibling differing in one byte incl. beyond byte 64, appended byte, 64-byte "
              "truncation, same 64-byte prefix + other tail, one byte shorter, random, zero-padded) exactly when RFC 2104 makes the "
-             "two keys the same key (<= 64 bytes and zero-padded). c19.payload / c19.check also present payloads made under sibling, "
+             "two keys the same key (<= 64 bytes and zero-padded); the time field read back from the payload: acceptance (field + "
+             "lifetime) ends no later than lifetime s (+ lifetime ns) after the call returned and no earlier than lifetime - 1 s "
+             "after it started (lifetimes default/300/3600/9223372036); GetSecret returns the secret. c19.expire (wall clock, started in "
+             "background goroutines at the beginning of the run, collected at the end, retried when the machine is too slow to be "
+             "conclusive, 90 s watchdog): a payload of the real GeneratePayload with lifetime 1/2/3 s presented 0.3/1.0 s later "
+             "(must be accepted by CheckPayload and inside a fresh honest proof by CheckProof) and lifetime + 0.3 s / 3.7 s later "
+             "(must be rejected by both). c19.payload / c19.check also present payloads made under sibling, "
              "truncated and zero-padded secrets; c19.check with checkDomain policies allow/deny/error/suffix and both lifetimes set. c19.msg (createMessage bytes), c19.conv "
              "(convertTonProofMessage + ParseAccountID), c19.payload, c19.pubkey (getWalletPubKey), c19.stateinit "
              "(compareStateInitWithAddress + ParseStateInit) exercise the parts alone. Oracles on the implementation: honest => accepted "
@@ -47,7 +53,9 @@ PROP = {
                     "secret s2 on the payload GeneratePayload made under s1 succeeds exactly when the 16-byte MACs under the full keys "
                     "s1 and s2 agree and it has not expired (hence C19_payload_of_other_secret_rejected, C19_generated_payload_accepted "
                     "for secrets of any length), and keying the MAC with the secret cut/padded to the 64-byte block is refuted "
-                    "(C19_block_key_design_refuted). coq/Properties/C19_gen.v "
+                    "(C19_block_key_design_refuted); C19_generated_payload_rejected_after_lifetime: more than lifetime s (+ lifetime ns) "
+                    "after GeneratePayload the payload is rejected, i.e. the lifetime is counted once; a GeneratePayload that stores "
+                    "now + lifetime seconds is refuted (C19_lifetime_counted_twice_refuted). coq/Properties/C19_gen.v "
                     "re-checks on the constants translated from today's source: prefixes, default lifetimes, get_public_key method id "
                     "(= crc16 of the name | 0x10000), knownHashes range, the switch of ParseStateInit (key offsets 32/64/113/65 derived "
                     "from the wallet data structs, default clause is an error), and recomputes all 12 code hashes from the code BOCs "
@@ -59,6 +67,8 @@ PROP = {
                     "HMAC is a parameter keyed with the secret exactly as configured; that keys of at most 64 bytes and their zero-padded "
                     "forms are the same HMAC key (RFC 2104) is a fact about HMAC, reflected in the harness oracle, not a defect",
                     "lifetimes above 9223372036 s overflow time.Duration (model and code agree; configuration misuse)",
+                    "c19.expire depends on the wall clock: acceptance cases are retried (at most 4 times) when generation-to-check took "
+                    "longer than lifetime - 1 s; rejection cases cannot be perturbed by delays",
                     "JSON decoding of Proof, context cancellation and the real executor are not modelled; the clock is a parameter",
                     "ParseAccountID's base64 fallback is modelled as an error: convertTonProofMessage has already required a ':' "
                     "which base64url never accepts"],
